@@ -218,14 +218,17 @@ def install_gate():
     if _gated:
         return
     _gated = True
-    _orig_read = TokenScanner.read
+    # A line boundary is where a parser fetches its next token — from the scanner OR from its look-ahead
+    # queue — so the scheduling point is Parser.read_token (a gate only at TokenScanner.read would never
+    # switch while looked-ahead tokens are queued).
+    _orig_read = Parser.read_token
 
-    def gated_read(self):
+    def gated_read_token(self, context):
         g = getattr(_gate_tl, "gate", None)
         if g is not None:
             g.wait_turn()
-        return _orig_read(self)
-    TokenScanner.read = gated_read
+        return _orig_read(self, context)
+    Parser.read_token = gated_read_token
 
 
 class Gate:
@@ -278,10 +281,25 @@ def run_schedule(jobs, schedule):
     return [g.result for g in gates], turns
 
 
-def turns_of(src):
-    """number of scheduler turns a parse of src needs: one to start + one per scanner read"""
-    n = len(observe.physical_lines(src)) + 1
-    return n + 1
+class _CountGate:
+    def __init__(self):
+        self.n = 0
+
+    def wait_turn(self):
+        self.n += 1
+
+
+def turns_of(src, stop=False, matcher="none"):
+    """number of scheduler turns a parse of src needs: one to start + one per token fetch
+    (measured by a solo dry run with a counting gate)"""
+    install_gate()
+    g = _CountGate()
+    _gate_tl.gate = g
+    try:
+        one_run(*fresh(matcher), src, stop)
+    finally:
+        _gate_tl.gate = None
+    return g.n + 1
 
 
 SCHED_DOCS = {
@@ -300,7 +318,7 @@ def run_schedules(spec, M):
     names = spec["docs"]
     jobs = [(SCHED_DOCS[n], spec.get("stop", False), spec.get("matcher", "none")) for n in names]
     solo_res = [one_run(*fresh(j[2]), j[0], j[1]) for j in jobs]
-    sizes = [turns_of(j[0]) for j in jobs]
+    sizes = [turns_of(*j) for j in jobs]
     total = sum(sizes)
     case0 = {"kind": "schedule", "docs": names, "stop": spec.get("stop", False), "matcher": spec.get("matcher", "none")}
 
@@ -319,7 +337,22 @@ def run_schedules(spec, M):
             return False
         return True
 
-    if spec["mode"] == "all":
+    import math
+    limit = spec.get("limit", 4000)
+    n_all = math.comb(total, sizes[0]) if len(jobs) == 2 else None
+    mode = spec["mode"]
+    if mode == "all" and n_all is not None and n_all > limit:
+        # too many interleavings for this tier: a uniform random sample of `limit` of them instead
+        mode = "sampled"
+        M.count("schedule_sets_sampled_instead_of_enumerated")
+        r = rng(spec["seed"], ID, "sample", names)
+        for _ in range(limit):
+            sch = [0] * sizes[0] + [1] * sizes[1]
+            r.shuffle(sch)
+            if not check(sch):
+                break
+    elif mode == "all":
+        M.count("schedule_sets_enumerated_completely")
         if len(jobs) == 2:
             n0 = sizes[0]
             for comb in itertools.combinations(range(total), n0):
@@ -342,9 +375,14 @@ def run_schedules(spec, M):
                         acc.pop()
                         rem[k] += 1
             cnt = 0
+            n3 = math.factorial(total)
+            for z in sizes:
+                n3 //= math.factorial(z)
+            stride = max(spec.get("stride") or 1, -(-n3 // limit))
+            M.notes["three_way"] = {"interleavings_possible": n3, "stride": stride}
             for sch in gen(list(sizes), []):
                 cnt += 1
-                if spec.get("stride") and cnt % spec["stride"] != spec.get("offset", 0):
+                if cnt % stride != spec.get("offset", 0) % stride:
                     continue
                 if not check(sch):
                     break
@@ -361,7 +399,7 @@ def run_schedules(spec, M):
                     rem[k] -= 1
             if not check(sch):
                 break
-    M.sample({"documents": names, "turns_per_document": sizes, "mode": spec["mode"]})
+    M.sample({"documents": names, "turns_per_document": sizes, "mode": mode, "interleavings_possible": n_all})
 
 
 def run_free(spec, M):
@@ -444,17 +482,19 @@ def plan(tier, seed):
                           "long": 40 if q else 1500, "generated": 30 if q else 800, "seed": seed, "n": 1})
     specs.append({"family": "markdown", "seed": seed, "n": 1})
     specs.append({"family": "w0", "seed": seed, "n": 1})
-    small = ["a5", "b5", "c5", "d5", "e5"]
-    pairs = [("a5", "b5"), ("c5", "e5"), ("d5", "b5"), ("a5", "c5"), ("e5", "d5")]
+    small = ["a5", "b5", "c5", "d5", "e5", "a4", "b4", "c4", "d4", "e4"]
+    pairs = [("a4", "b4"), ("c4", "e4"), ("d4", "b4"), ("a4", "c4"), ("e4", "c4"), ("c4", "b4")]
     if not q:
+        pairs += [("a5", "b5"), ("c5", "e5"), ("d5", "b5"), ("a5", "c5"), ("e5", "d5")]
         pairs += [(a, b) for a, b in itertools.combinations([k for k in SCHED_DOCS if k not in small and len(k) > 1], 2)]
     for a, b in pairs:
-        specs.append({"family": "schedules", "docs": [a, b], "mode": "all", "seed": seed, "n": 1})
-    specs.append({"family": "schedules", "docs": ["a5", "b5"], "mode": "all", "stop": True, "matcher": "en", "seed": seed, "n": 1})
-    specs.append({"family": "schedules", "docs": ["b5", "d5"], "mode": "all", "stop": False, "matcher": "fr", "seed": seed, "n": 1})
+        specs.append({"family": "schedules", "docs": [a, b], "mode": "all", "seed": seed, "n": 1, "limit": 3500 if q else 200000})
+    specs.append({"family": "schedules", "docs": ["a4", "c4"], "mode": "all", "stop": True, "matcher": "en", "seed": seed, "n": 1, "limit": 3500 if q else 200000})
+    specs.append({"family": "schedules", "docs": ["b4", "e4"], "mode": "all", "stop": False, "matcher": "fr", "seed": seed, "n": 1, "limit": 3500 if q else 200000})
     # three concurrent parses: 2 lines each (4 turns) -> 34 650 interleavings; quick takes every 10th
     for off in range(1 if q else 10):
-        specs.append({"family": "schedules", "docs": ["x", "y", "z"], "mode": "all", "stride": 10, "offset": off, "seed": seed, "n": 1})
+        specs.append({"family": "schedules", "docs": ["x", "y", "z"], "mode": "all", "stride": 10, "offset": off, "seed": seed, "n": 1,
+                      "limit": 3500 if q else 80000})
     for k in range(4 if q else 32):
         specs.append({"family": "schedules", "docs": ["A_doc", "B_fr", "C_tags", "D_err"][: 3 + k % 2], "mode": "random", "count": 120 if q else 2000, "seed": seed + k, "n": 1})
     for k in range(4 if q else 32):
@@ -465,6 +505,12 @@ def plan(tier, seed):
 SCHED_DOCS.update({
     # 2-line documents for three-way interleavings (4 turns each)
     "x": "Feature: x\n  @t\n", "y": "#language: fr\nFonctionnalité: y\n", "z": 'Feature: z\n"""\n',
+    # 4-line documents: complete two-way enumeration in the quick tier (6-7 turns each incl. re-fetched look-ahead tokens)
+    "a4": 'Feature: a\n  Scenario: s\n    Given x\n    """\n',
+    "b4": "# language: fr\nFonctionnalité: b\n  Scénario: s\n    Soit y\n",
+    "c4": "Feature: c\n  Scenario: s\n  @t\n  Scenario: t\n",
+    "d4": "Feature: d\n    | a |\n  Scenario: s\n    Given x\n",
+    "e4": "#language:no\nEgenskap: e\n  @t\n  # c\n",
     # 5-line documents for complete two-way enumeration (7 turns each -> 3432 interleavings)
     "a5": 'Feature: a\n  Scenario: s\n    Given x\n    """\n    Feature: no\n',
     "b5": "# language: fr\nFonctionnalité: b\n  @t\n  Scénario: s\n    Soit y\n",
